@@ -65,7 +65,7 @@ IllEv ==
   /\ UNCHANGED <<S, tcfg, perr, chain, zvars>>
 
 \* ---- C07: Zone's variables driven by what was observed at the parser's surface
-Rest == <<pol, origin, lastOwner, dirTTL, lastTTL, errln, undef, depth, nline>>
+Rest == <<pol, origin, lastOwner, dirTTL, lastTTL, errln, undef, depth, dir, nline>>
 ParserEv == /\ Ev.ev = "parser"
             /\ cfg' = [cfg EXCEPT !.incAllowed = Ev.allowed]
             /\ err' = FALSE /\ out' = <<>> /\ opens' = <<>> /\ perr' = 0 /\ chain' = Ev.chain
@@ -89,7 +89,7 @@ OpenEv  == /\ Ev.ev = "open"
            /\ (chain => Len(opens') <= MaxDepth)                 \* nesting stops at a fixed depth
            /\ UNCHANGED <<S, tcfg, perr, chain, cfg, err, out, Rest>>
 
-NoCfg == [defTTL |-> -1, origin |-> NoName, incAllowed |-> FALSE, files |-> <<>>]
+NoCfg == [defTTL |-> -1, origin |-> NoName, incAllowed |-> FALSE, file |-> <<>>, files |-> <<>>]
 Init == /\ l = 1 /\ HWInit /\ S = {} /\ tcfg = NoCfg /\ perr = 0 /\ chain = FALSE
         /\ ZInit(NoCfg) /\ pol = [io |-> FALSE, it |-> FALSE, go |-> FALSE, gt |-> FALSE]
 Next == /\ l <= Len(Trace)
